@@ -43,6 +43,8 @@ def main(argv=None):
         try:
             mod = importlib.import_module("rules.%s" % prop)
             mod.run(ctx, rep, tier)
+            from . import darule
+            darule.apply(ctx, rep)
         except AnalysisError as e:
             rep.error("rule=anchor reason=%s" % e)
         except Exception as e:
